@@ -362,9 +362,7 @@ def run_check(prop: str, tier: str, seed: int, module: Any) -> int:
     ctx.deadline = time.time() + budget
     try:
         module.run(ctx)
-    except Infra:
-        raise
-    except Exception as e:  # noqa: BLE001
+    except Exception as e:  # noqa: BLE001 — Infra raised by a plugin included: an assumption it makes about the code failed
         # the harness itself stopped (an assumption it makes about the code no longer holds, a name it imports is
         # gone): the correspondence was not established — reported like a broken obligation, with what was found so far
         import traceback
